@@ -253,6 +253,87 @@ fn decode_item(fields: &[(&str, &str)]) -> String {
                 }
             }
         }
+        "collect" => {
+            // stepwise decoding with the Vec returning collect(), the decoder's own read() and steps without any drain
+            // mixed; whatever is left is taken by a final collect()
+            let mut src = Src { data: &frame, chunk, interrupt: rint, calls: 0 };
+            let mut dec = FrameDecoder::new();
+            match dec.reset(&mut src) {
+                Err(e) => outcome = format!("err_init {}", variant(&e)),
+                Ok(()) => {
+                    let strat = num(fields, "strat");
+                    let kind = num(fields, "take");
+                    let mut buf = vec![0u8; readsize];
+                    let mut step = 0usize;
+                    loop {
+                        let s = match strat {
+                            0 | 1 => BlockDecodingStrategy::UptoBlocks(1),
+                            _ => BlockDecodingStrategy::UptoBytes(strat),
+                        };
+                        match dec.decode_blocks(&mut src, s) {
+                            Err(e) => {
+                                outcome = format!("err_decode {}", variant(&e));
+                                break;
+                            }
+                            Ok(_) => {}
+                        }
+                        match (step + kind) % 3 {
+                            0 => {
+                                if let Some(v) = dec.collect() {
+                                    tape.extend_from_slice(&v);
+                                }
+                            }
+                            1 => loop {
+                                match dec.read(&mut buf) {
+                                    Ok(0) | Err(_) => break,
+                                    Ok(n) => tape.extend_from_slice(&buf[..n]),
+                                }
+                            },
+                            _ => {}
+                        }
+                        step += 1;
+                        if dec.is_finished() || step > 1_000_000 {
+                            break;
+                        }
+                    }
+                    if let Some(v) = dec.collect() {
+                        tape.extend_from_slice(&v);
+                    }
+                    consumed = dec.bytes_read_from_source();
+                    stored = dec.get_checksum_from_data();
+                    #[cfg(feature = "hash")]
+                    {
+                        calc = dec.get_calculated_checksum();
+                    }
+                }
+            }
+        }
+        "all" | "all_vec" => {
+            // the multi frame calls on slices; the target is `take` bytes large
+            let cap = num(fields, "take");
+            let mut dec = FrameDecoder::new();
+            if front == "all" {
+                let mut out = vec![0u8; cap];
+                match dec.decode_all(&frame, &mut out) {
+                    Ok(n) => tape.extend_from_slice(&out[..n]),
+                    Err(e) => outcome = format!("err_decode {}", variant(&e)),
+                }
+            } else {
+                let mut out: Vec<u8> = Vec::with_capacity(cap);
+                out.extend_from_slice(b"prefix");
+                match dec.decode_all_to_vec(&frame, &mut out) {
+                    Ok(()) => {}
+                    Err(e) => outcome = format!("err_decode {}", variant(&e)),
+                }
+                tape = out;
+            }
+            consumed = dec.bytes_read_from_source();
+            stored = dec.get_checksum_from_data();
+            #[cfg(feature = "hash")]
+            {
+                calc = dec.get_calculated_checksum();
+            }
+        }
         _ => {
             // slice to slice with the source cut into chunks
             let mut dec = FrameDecoder::new();
